@@ -18,7 +18,7 @@ Spmv8(a0, a1, a2, b0, b1, b2) ==
       ch == (((m0.h + m1.h) % T) + m2.h) % T
   IN Reduce96(ch, cl)
 Spmv8_512(a0, a1, a2, b0, b1, b2) ==
-  LET m0 == Mult72(a0, b0) m1 == Mult72(a1, b1) m2 == Mult72(a2, b2)
+  LET m0 == Mult72_512(a0, b0) m1 == Mult72_512(a1, b1) m2 == Mult72_512(a2, b2)
       cl == Add512(Add512(m0.l, m1.l), m2.l)
       ch == (((m0.h + m1.h) % T) + m2.h) % T
   IN Reduce96_512(ch, cl)
